@@ -1089,21 +1089,21 @@ def contracts():
           TupleLike('tuple'), TupleLike('getnewargs'),
           SetLike('frozenset', True), SetLike('frozenset', False), SetLike('dict', True), SetLike('dict', False),
           ObjHash('Immutable'), ObjHash('DataClass'), FrozenDictHash(True), FrozenDictHash(False)]
-    cs += [GenericBranch(k) for k in 'bifc'] + [MethodBranch(), DataclassBranch(), FrozenMultisetHash(True), FrozenMultisetHash(False)]
+    cs += [GenericBranch(k) for k in 'biufc'] + [MethodBranch(), DataclassBranch(), FrozenMultisetHash(True), FrozenMultisetHash(False)]
     from contracts import C17_intern
     cs += C17_intern.contracts()
     return cs
 
 
-# contracts that FAIL on the unchanged tree (candidate defects, see notes/C17-ext.md); kept, not run by default
-PARKED = [GenericBranch('u')]
+# GenericBranch('u') failed on the pinned commit (KeyError for unsigned numpy scalars): repaired by a fix: commit, now part of contracts()
+PARKED = []
 
 
 TRUSTED = ['pyvc symbolic executor; bytes as (length, index->byte); SHA-1 idealised as an injective function (cryptographic assumption)',
            'str.encode and repr of Python scalars are injective; type names contain no NUL byte',
            'sorted(): the ascending arrangement of a multiset (canonical); iteration over set/dict: every element once, arbitrary order',
            'structural induction over values (meta): equal child digests => equal children',
-           'numpy scalars: T(x) with T the Python type of x\'s dtype kind (b->bool, i->int, f->float, c->complex) is the Python value equal to x (cross-checked in native/axioms.py)',
+           'numpy scalars: T(x) with T the Python type of x\'s dtype kind (b->bool, i->int, u->int, f->float, c->complex) is the Python value equal to x (cross-checked in native/axioms.py)',
            "'{:04d}'.format(c) for 0 <= c < 10**4 is exactly four ASCII digits and injective in c (cross-checked exhaustively in native/axioms.py)",
            'dataclasses.fields(t): the fields in definition order, pairwise distinct names; dataclasses.is_dataclass(t) decides the branch',
            'interning contracts (contracts/C17_intern.py): inspect.Signature.bind / BoundArguments.apply_defaults/.args/.kwargs/.arguments are executed by the REAL inspect module of the checker interpreter (CPython 3.11) on the concrete call structure, values opaque; the native replays exercise the same shapes under /venv (CPython 3.12)',
@@ -1114,15 +1114,15 @@ TRUSTED = ['pyvc symbolic executor; bytes as (length, index->byte); SHA-1 ideali
 ASSUMPTIONS = ['distinct hashed types have distinct __name__ (the `type` branch hashes only __name__): a real precondition of the code',
                'recursive calls of nutils_hash satisfy the same contract (induction hypothesis); in the dataclass branch: nutils_hash((name, value)) determines name and nutils_hash(value) (tuple + str branches)',
                'frozenmultiset: every multiplicity is < 10**4 (the count field is {:04d}: wider counts make the blocks variable-width; not claimed either way, a stated limit)',
-               'numpy scalars of kind b/i/f/c only; kind u (unsigned) is PARKED: nutils_hash raises KeyError (candidate defect, notes/C17-ext.md)',
+               'numpy scalars of kind b/i/u/f/c (kind u raised KeyError on the pinned commit; repaired, see known_findings.json)',
                'interning contracts are bounded: signature shapes (a, b, c=d), (a, b=d, *, k=d2), (a, **kw); 3-6 spellings per shape; intern table with one live prior entry of arbitrary key',
-               '_hashable_function_wrapper.__init__: the wrapped function carries no __nutils_hash__ of its own in its __dict__ (the other case is PARKED: candidate defect, notes/C17-ext.md)',
+               '_hashable_function_wrapper.__init__: both cases (wrapped function with and without a __nutils_hash__ of its own) are under contract; the former failed on the pinned commit and was repaired (known_findings.json)',
                'arraydata.__new__: two arrays of one kind class with common shape and values; int64 treated as mathematical integers']
 NOT_COVERED = ['weak-reference lifetimes / garbage-collection histories of the intern tables (DataClassMeta.__cache, SingletonMeta._cache): outside the family, not modelled (tables are modelled with all values alive)',
                'pickling in another process (only the __reduce__ -> rebuild round trip inside one process is under contract)',
                'types.lru_cache (key on array buffers): needs numpy __array_interface__ addresses, the ndarray.base chain, flags.writeable and weakref callbacks -- a heap model of numpy objects that the engine does not have',
                'types.frozenarray: mutates flags.writeable along the ndarray.base chain; same reason as lru_cache; it does not take part in hashing (nutils_hash of the result is the ndarray branch, under contract)',
-               'nutils_hash: the final `else: raise TypeError` and objects whose __nutils_hash__ attribute is user supplied (cache.function, util.function: C18); every other branch is under contract (numpy.generic kind u: PARKED)',
+               'nutils_hash: the final `else: raise TypeError` and objects whose __nutils_hash__ attribute is user supplied (cache.function, util.function: C18); every other branch is under contract ',
                'arraydata.__init__ / reshape / __array_interface__; frozendict/frozenmultiset __eq__/__hash__ (Python hashing, not the nutils hash)',
                'ImmutableMeta.__new__ / DataClassMeta.__init__ (class creation: how __signature__ and _canonicalize are derived from the class body)',
                'System.__init__: that every behaviour-relevant attribute is a function of (trials, value | block residuals) is by reading the constructor, not checked; solver method objects Direct/Newton/... .__nutils_hash__ (same one-line pattern) are not under contract',
